@@ -127,7 +127,7 @@ func isFieldOfParam(v ssa.Value, field string, prm *ssa.Parameter) bool {
 		v = u.X
 	}
 	fv := an.FieldOf(v)
-	if fv == nil || fv.Name() != field {
+	if fv == nil || an.Ident(fv.Name()) != field {
 		return false
 	}
 	root, _ := an.RootPath(v)
@@ -269,7 +269,7 @@ func checkLowBalanceGuard(p *an.Prog, r *an.Run, fn *ssa.Function, lb lbReturn, 
 					bad = append(bad, "the balance compared with the minimum is read before the keep-alive's charge has been debited")
 				}
 			}
-			if d.CallTo(func(f *types.Func) bool { return f.Name() == "intervalCredit" }) != nil {
+			if d.CallTo(func(f *types.Func) bool { return an.Ident(f.Name()) == "intervalCredit" }) != nil {
 				bad = append(bad, "the compared value derives from the size of the charge, not from the node's balance")
 			}
 		}
@@ -309,6 +309,7 @@ func runC03(p *an.Prog, r *an.Run, tier string) {
 	checkMinBalanceWiring(p, r)
 	checkBalanceReadErrors(p, r)
 	checkMinImmutable(p, r)
+	checkConnectOrder(p, r)
 	// every function constructing a LowBalanceError must be one of the two anchors
 	n := 0
 	updDebit := func() ssa.CallInstruction {
@@ -585,7 +586,7 @@ func runC02(p *an.Prog, r *an.Run, tier string) {
 		for _, cr := range ctrlRels(w.Block()) {
 			if cr.Kind == "bigcmp" && cr.Op == token.NEQ || cr.Kind == "bigcmp" && cr.Op == token.GTR {
 				dl := p.Derives(0, cr.L)
-				if dl.CallTo(func(f *types.Func) bool { return f.Name() == "intervalCredit" }) != nil && isZeroBig(p, cr.R) {
+				if dl.CallTo(func(f *types.Func) bool { return an.Ident(f.Name()) == "intervalCredit" }) != nil && isZeroBig(p, cr.R) {
 					zeroG = true
 				}
 			}
@@ -609,7 +610,7 @@ func runC02(p *an.Prog, r *an.Run, tier string) {
 		}
 		key := an.FuncName(onUpdate) + "#" + itoa(i+1)
 		d := p.Derives(0, a[1])
-		icCall := d.CallTo(func(f *types.Func) bool { return f.Name() == "intervalCredit" })
+		icCall := d.CallTo(func(f *types.Func) bool { return an.Ident(f.Name()) == "intervalCredit" })
 		ok := icCall != nil
 		why := "the credited amount does not come from intervalCredit"
 		if ok {
@@ -824,7 +825,7 @@ func runC02(p *an.Prog, r *an.Run, tier string) {
 			r.Analysed(an.FuncName(ids))
 			okIDs := false
 			for _, c := range an.Calls(ids, false) {
-				if b, ok := c.Common().Value.(*ssa.Builtin); ok && b.Name() == "append" {
+				if b, ok := c.Common().Value.(*ssa.Builtin); ok && an.Ident(b.Name()) == "append" {
 					if p.Derives(0, c.Common().Args[1]).CallTo(func(f *types.Func) bool { return an.IsMethod(f, pkgEthnode, "PeerInfo", "EnodeID") }) != nil {
 						okIDs = true
 					}
@@ -1674,4 +1675,44 @@ func reportedIDsComplete(p *an.Prog, arg ssa.Value) []string {
 		}
 	}
 	return []string{"the id list handed to the store is not the result of Peers.IDs() as a whole"}
+}
+
+// checkConnectOrder: the connect-time check reads the node's balance by its id, and both drivers answer
+// ErrUnregisteredNode for an id they do not hold: the manager's OnClient is only reached once the node record has been
+// saved (otherwise a first-time client at or above the minimum is refused, and one below it gets the wrong error).
+func checkConnectOrder(p *an.Prog, r *an.Run) {
+	var conn *ssa.Function
+	var onc, setn ssa.CallInstruction
+	vp := p.Named("pool", "VipnodePool")
+	if vp == nil {
+		r.Undec("connect-order", "pool.VipnodePool", token.NoPos, "type not found")
+		return
+	}
+	for _, fn := range p.Repo {
+		if p.IsTestFunc(fn) || fn.Signature.Recv() == nil || namedOf(fn.Signature.Recv().Type()) != vp {
+			continue
+		}
+		for _, c := range an.Calls(fn, false) {
+			if f := an.CallObj(c); f != nil && f.Name() == "OnClient" && an.RecvNamed(f) != nil && an.RecvNamed(f).Obj().Name() == "Manager" {
+				conn, onc = fn, c
+			}
+		}
+	}
+	if conn == nil {
+		r.Undec("connect-order", "pool.VipnodePool", token.NoPos, "no call of the balance manager's OnClient found in the pool")
+		return
+	}
+	r.Analysed(an.FuncName(conn))
+	for _, c := range an.Calls(conn, false) {
+		if isStoreMethodNamed(an.CallObj(c), "SetNode") {
+			setn = c
+		}
+	}
+	var bad []string
+	if setn == nil {
+		bad = append(bad, "the connecting node is not saved before the balance manager judges it")
+	} else if an.ReachAvoiding(conn, an.EdgeSet(an.ErrEdges(setn).Succ))[onc.Block()] {
+		bad = append(bad, "OnClient at "+p.Pos(onc.Pos())+" is reachable without the node having been saved (SetNode at "+p.Pos(setn.Pos())+"): the balance lookup of a first-time client fails with ErrUnregisteredNode instead of judging its balance")
+	}
+	r.Check(len(bad) == 0, "connect-order", an.FuncName(conn), conn.Pos(), "the node record is saved before OnClient reads its balance", "%s", strings.Join(bad, "; "))
 }
